@@ -34,7 +34,7 @@ add("C06", "exploration",
     "Known finding C06|Graph::run|returned-before-quiescence|final-pass-had-data-moving-non-Again-call is listed in known_findings.json: runs that hit it are not judged further. Any other signature is a violation.",
     "runtime monitoring: quiescence probe at a hook + differential oracle vs sequential reference", "3/C06", "graph-programs")
 add("C07", "fault_enumeration",
-    "Chains of 1-5 blocks behind finite and infinite sources on both runners. Cancellation is injected (i) from an outside thread after a seeded delay, (ii) from the hook callback at the k-th yield event of whichever thread reaches it (k swept), (iii) from inside a block's work(); probes count work() entries that begin after cancel() returned (bound 1 on Graph, 2 on MTGraph), run() must return (stuck detector), blocks dropped and thread count back to baseline. A failing block at every chain position failing on call k in {1,2,5,50}: run() under catch_unwind must return Err carrying the injected message. A sixth kind triggers the token before run() is entered.",
+    "Chains of 1-5 blocks behind finite and infinite sources on both runners. Cancellation is injected (i) from an outside thread after a seeded delay, (ii) from the hook callback at the k-th yield event of whichever thread reaches it (k swept), (iii) from inside a block's work(); probes count work() entries that begin after cancel() returned (bound 1 on Graph, 2 on MTGraph), run() must return (stuck detector), blocks dropped and thread count back to baseline. A failing block at every chain position failing on call k in {1,2,5,50}: run() under catch_unwind must return Err carrying the injected message. A sixth kind triggers the token before run() is entered; a third of the cancellation cases contain a Tee whose second output is held unread by the harness (an application-side stream end), and after cancel() a parked block thread that keeps waking up (40 wake-ups by the kernel's counter) without any block being called again is reported.",
     "The swept fault points are the yield hooks (every stream operation entry and every peer-liveness read) plus block-internal and external cancellation; points between them are reached only by timing.",
     "runtime monitoring with fault injection: cancellation at swept hook points, failing block at every position", "3/C07", "graph-programs")
 add("C08", "exploration",
